@@ -304,11 +304,14 @@ class Task:
                 self.loop_ordinals[id(n)] = k
                 k += 1
         self.old = None
+        self.fn_locals = assigned_names(self.fn) | {a.arg for a in self.fn.args.args + self.fn.args.kwonlyargs}
         self.dropped = set()
         self.notes = []
 
     # ---------------------------------------------------------------- feasibility
     def feasible(self, st, extra=None):
+        if getattr(self, "no_prune", False):
+            return True
         self.feas_checks += 1
         self.solver.push()
         try:
@@ -384,6 +387,12 @@ class Task:
         w = vref(z3.Const(fresh_name(f"wrap.{sort.cls}"), Ref), sort.cls)
         st.assume(w.z != null)
         link = co["link"]
+        if "methods" in co:
+            if isinstance(val, VFunc) and val.contract in co["methods"] and val.bound_self is not None:
+                self.write_field(st, w, link, val.bound_self)
+                self.write_field(st, w, co["tag"], vint(co["methods"][val.contract]))
+                return w
+            raise Unsupported(f"callable {val} stored where the sidecar expects one of {list(co['methods'])}")
         if isinstance(val, VFunc) and val.contract == co["method"] and val.bound_self is not None:
             self.write_field(st, w, link, val.bound_self)
         elif isinstance(val, VPartial) and val.func.contract in co.get("plain", []):
@@ -493,10 +502,11 @@ class Task:
     def _check_sat(self, fs):
         """vacuity guard: the assumptions must not be contradictory ('unsat' = vacuous = engine error)"""
         s = z3.Solver()
-        s.set("timeout", 3000)
+        s.set("timeout", 2000)
         s.set("smt.mbqi", False)
         for f in fs:
-            s.add(f)
+            if not has_quantifier(f):     # the quantifier-free part of the assumptions must be satisfiable
+                s.add(f)
         return str(s.check())
 
     def finish(self, o):
@@ -608,6 +618,11 @@ class Task:
         if m is None:
             raise Unsupported(f"statement {type(s).__name__} at {self.src.relpath}:{s.lineno}")
         return m(s, st)
+
+    def st_FunctionDef(self, s, st):
+        st.locals[s.name] = VOpaque(f"local function {s.name}")
+        self.dropped.add("bodies of nested function definitions (calling one is unsupported)")
+        return [Outcome(Outcome.NORMAL, st)]
 
     def st_Pass(self, s, st):
         return [Outcome(Outcome.NORMAL, st)]
@@ -815,7 +830,7 @@ class Task:
                 "ImportError": "Exception", "NotImplementedError": "RuntimeError", "Exception": "BaseException",
                 "MagicInjectError": "ValueError", "IllegalCallError": "TypeError", "NoFirstStateError": "ValueError",
                 "MultipleFirstStatesError": "ValueError", "MultipleDefaultStatesError": "ValueError",
-                "InvalidStateName": "ValueError", "UserException": "Exception"}
+                "InvalidStateName": "ValueError", "UserException": "Exception", "NameError": "Exception", "UnboundLocalError": "NameError"}
 
     def handler_matches(self, h, exc):
         if h.type is None:
@@ -896,8 +911,45 @@ class Task:
                     calls.add("__call__")
         return assigned, attrs, calls
 
-    def apply_loop_havoc(self, node, st, spec):
+    def dry_run_frame(self, node, st, it):
+        """discover the contracts an arbitrary iteration may call: execute the body once with pruning off, keep nothing"""
+        nob, npaths = len(self.obligations), self.paths
+        self.collecting = set()
+        self.no_prune = True
+        try:
+            d = st.fork()
+            assigned, attrs, _ = self.loop_frame(node, d, {})
+            for name in assigned:
+                if name in d.locals and isinstance(d.locals[name], V):
+                    d.locals[name] = d.locals[name].sort.fresh(f"dry.{name}")
+            outs = []
+            if it is not None:
+                iv = z3.Int(fresh_name("__dry_i"))
+                for b in self.assign_to(node.target, it[1](iv), d):
+                    outs += self.exec_block(node.body, b)
+            else:
+                for s2, c, e in self.ev_cond(node.test, d):
+                    if e is None:
+                        outs += self.exec_block(node.body, s2)
+            self.dry_local_sorts = {}
+            for o in outs:
+                for name in assigned:
+                    v = o.st.locals.get(name)
+                    if isinstance(v, V) and name not in st.locals:
+                        self.dry_local_sorts.setdefault(name, v.sort)
+            return set(self.collecting)
+        finally:
+            self.no_prune = False
+            self.collecting = None
+            del self.obligations[nob:]
+            self.paths = npaths
+
+    def apply_loop_havoc(self, node, st, spec, it=None):
         assigned, attrs, calls = self.loop_frame(node, st, spec)
+        try:
+            called = self.dry_run_frame(node, st, it)
+        except (Unsupported, SortMismatch):
+            called = None
         ls = spec.get("local_sorts", {})
         for name in assigned:
             if name in ls:
@@ -908,15 +960,43 @@ class Task:
             for cn, cd in self.ctx.classes.items():
                 if a in cd["fields"] and cd["fields"][a] != "py":
                     self.havoc_field(st, cn, a)
-        # callee frames, over-approximated by short name
-        for cname, c in self.ctx.contracts.items():
-            short = cname.split(".")[-1]
-            if short in calls or cname in calls:
-                self.havoc_modifies(st, c.modifies, None, whole=True)
+        if called is not None:
+            for cname in called:
+                self.havoc_contract_frame(st, self.ctx.contracts[cname])
+        else:
+            # fallback: callee frames over-approximated by short name
+            for cname, c in self.ctx.contracts.items():
+                short = cname.split(".")[-1]
+                if short in calls or cname in calls:
+                    self.havoc_modifies(st, c.modifies, None, whole=True)
         self.havoc_modifies(st, spec.get("modifies", []), st.locals.get("self"), whole=True)
         for v in spec.get("havoc_locals", []):
             if v in st.locals:
                 st.locals[v] = st.locals[v].sort.fresh(f"loop.{v}")
+
+    def havoc_contract_frame(self, st, c):
+        """whole-array havoc of exactly the fields a callee contract may modify (object expressions resolved by class)"""
+        rcls = c.name.rsplit(".", 1)[0] if "." in c.name else None
+        for m in c.modifies:
+            m = m.strip()
+            if m.endswith("[*]") or "." not in m:
+                self.havoc_modifies(st, [m], None, whole=True)
+                continue
+            ox, f = m.rsplit(".", 1)
+            cls = None
+            if ox == "self" and rcls in self.ctx.classes:
+                cls = rcls
+            elif ox in c.params and c.params[ox] != "py":
+                ps = parse_sort(c.params[ox])
+                cls = ps.cls if isinstance(ps, RefSort) else None
+            if cls is not None and self.ctx.field_decl(cls, f) is not None:
+                # subclasses may redeclare nothing: the declaring class owns the array
+                self.havoc_field(st, self.ctx.field_decl(cls, f)[0], f)
+                for sub, cd in self.ctx.classes.items():       # and the same field reached through subclasses
+                    if cls in self.ctx.mro(sub) and sub != cls and f in cd["fields"]:
+                        self.havoc_field(st, sub, f)
+            else:
+                self.havoc_modifies(st, [m], None, whole=True)
 
     def havoc_modifies(self, st, mods, self_v, whole=False, env=None):
         for m in mods:
@@ -965,12 +1045,15 @@ class Task:
         inv = spec.get("inv", {})
         lname = f"{self.label}: loop#{k}"
 
+        loop_entry = st.snapshot()
+
         def env_of(state, i):
             env = dict(state.locals)
             if i is not None:
                 env["__i"] = vint(i)
             if it is not None:
                 env["__n"] = vint(it[0])
+            env["__loop_entry__"] = loop_entry
             return env
 
         # 1. invariant holds on entry
@@ -980,7 +1063,24 @@ class Task:
                         self.spec_bool(st, t, env_of(st, i0), self.old, self.receiver), "loop_inv", node.lineno)
         # 2. arbitrary iteration
         h = st.fork()
-        self.apply_loop_havoc(node, h, spec)
+        self.dry_local_sorts = {}
+        self.apply_loop_havoc(node, h, spec, it)
+        carried = {n: srt for n, srt in self.dry_local_sorts.items() if n not in h.locals and srt != NONE}
+        if carried:
+            # locals first bound inside the body: unbound in the first iteration, bound (to anything) in later ones
+            outs2 = []
+            for variant in ("unbound", "bound"):
+                hv = h.fork()
+                if variant == "bound":
+                    for n, srt in carried.items():
+                        hv.locals[n] = srt.fresh(f"carried.{n}")
+                hv.trace.append((node.lineno, f"loop-carried locals {variant}"))
+                outs2 += self._run_loop_from(node, st, hv, k, spec, it, inv, lname, env_of)
+            return outs + outs2
+        return outs + self._run_loop_from(node, st, h, k, spec, it, inv, lname, env_of)
+
+    def _run_loop_from(self, node, st, h, k, spec, it, inv, lname, env_of):
+        outs = []
         iv = None
         if it is not None:
             iv = z3.Int(fresh_name("__i"))
@@ -1034,8 +1134,8 @@ class Task:
                 else:
                     exits.append(x)
         for x in exits:
-            if it is not None:
-                x.locals["__last_i"] = vint(iv)
+            for name, t in spec.get("post", {}).items():
+                self.oblige(x, f"{lname} post {name}", self.spec_bool(x, t, env_of(x, iv), self.old, self.receiver), "loop_post", node.lineno)
             outs.append(Outcome(Outcome.NORMAL, x))
         return outs
 
@@ -1124,6 +1224,9 @@ class Task:
         n = node.id
         if n in st.locals:
             return [(st, st.locals[n], None)]
+        if n in self.fn_locals:
+            # a local variable that is not bound on this path: CPython raises UnboundLocalError
+            return [(st, None, "UnboundLocalError")]
         return [(st, self.module_name(n, node), None)]
 
     def module_name(self, n, node=None):
@@ -1493,7 +1596,8 @@ class Task:
         raise Unsupported(f"subscript of {cont} (line {node.lineno})")
 
     def ex_Lambda(self, node, st):
-        raise Unsupported(f"lambda at line {node.lineno}")
+        self.dropped.add("lambda bodies (calling one is unsupported)")
+        return [(st, VOpaque(f"lambda at line {node.lineno}"), None)]
 
     # ---------------------------------------------------------------- calls
     def ex_Call(self, node, st):
@@ -1502,6 +1606,16 @@ class Task:
         if (self.src.relpath, ftxt) in self.ctx.event_calls:
             self.dropped.add(f"arguments of {ftxt}(...) (the call itself is an event with a contract)")
             return self.call_contract(st, self.ctx.contracts[self.ctx.event_calls[(self.src.relpath, ftxt)]], None, [], {}, node)
+        if isinstance(f, ast.Attribute) and f.attr == "update" and isinstance(f.value, ast.Attribute) and f.value.attr == "__dict__":
+            cn = self.ctx.dyn_getattr.get((self.contract.source, "__dict__.update")) or self.ctx.dyn_getattr.get("__dict__.update")
+            if cn is None:
+                raise Unsupported(f"obj.__dict__.update(...) without a DYN_GETATTR contract (line {node.lineno})")
+            res = []
+            for s2, vals, e in self.ev_many([f.value.value] + list(node.args), st):
+                if e is not None:
+                    res.append((s2, None, e)); continue
+                res += self.call_contract(s2, self.ctx.contracts[cn], None, vals, {}, node)
+            return res
         # list mutators on locals / fields: x.append(v), x.clear()
         if isinstance(f, ast.Attribute) and f.attr in ("append", "clear") and not self.is_noop_call(f, st):
             r = self.try_list_method(node, st)
@@ -1646,11 +1760,24 @@ class Task:
                 else:
                     env[n] = coerce(env[n], ps)
             elif s != "py" and isinstance(env[n], VPyTuple):
-                env[n] = coerce(vtuple(env[n].items), parse_sort(s))
+                ps = parse_sort(s)
+                if isinstance(ps, SeqSort) and isinstance(ps.elem, RefSort) and "callable_of" in self.ctx.classes.get(ps.elem.cls, {}) and st is not None:
+                    seq = seq_empty(ps.elem)
+                    for item in env[n].items:
+                        seq = seq_append(seq, self.wrap_callable(st, item, ps.elem) if isinstance(item, PyVal) else item)
+                    env[n] = seq
+                else:
+                    env[n] = coerce(vtuple(env[n].items), ps)
+            elif s != "py" and isinstance(env[n], PyVal) and st is not None:
+                ps = parse_sort(s)
+                if isinstance(ps, RefSort) and "callable_of" in self.ctx.classes.get(ps.cls, {}):
+                    env[n] = self.wrap_callable(st, env[n], ps)
         return env
 
     def call_contract(self, st, c, self_v, pos, kw, node):
         """modular call: assert requires/site asserts, havoc frame, assume ensures; fork on raise"""
+        if getattr(self, "collecting", None) is not None:
+            self.collecting.add(c.name)
         env = self.bind_args(c, self_v, pos, kw, node, st)
         self_cls = self_v.sort.cls if self_v is not None else None
         env["__self_cls__"] = self_cls
@@ -1743,6 +1870,8 @@ class Task:
                 res.append((s2, vals[0], None))
             elif name == "bool":
                 res.append((s2, vbool(truth(vals[0])), None))
+            elif name == "callable" and isinstance(vals[0], V) and isinstance(vals[0].sort, (SeqSort, MapSort)):
+                res.append((s2, vbool(False), None))
             elif name == "callable" and isinstance(vals[0], V) and isinstance(vals[0].sort, RefSort):
                 res.append((s2, vbool(z3.And(vals[0].z != null, CALLABLE(vals[0].z))), None))
             else:
@@ -1807,6 +1936,9 @@ class Task:
                     res.append((s2, vbool(z3.Not(obj.comps[0])), None)); continue
             if isinstance(obj, V) and obj.sort == STR and tname not in ("str",):
                 res.append((s2, vbool(False), None)); continue
+            if isinstance(obj, V) and isinstance(obj.sort, RefSort) and tname.split(".")[-1] in [c.split(".")[-1] for c in self.ctx.mro(obj.sort.cls)]:
+                # the sidecar declares this object to be of that class
+                res.append((s2, vbool(obj.z != null), None)); continue
             if isinstance(obj, V) and isinstance(obj.sort, RefSort):
                 for s3, tv, e3 in self.ev(tn, s2):
                     if e3 is not None:
@@ -1960,7 +2092,7 @@ class SpecEval:
         i = n.id
         if i in self.bound:
             return self.bound[i]
-        if i in self.env and self.env[i] is not None and i != "__self_cls__":
+        if i in self.env and self.env[i] is not None and i not in ("__self_cls__", "__loop_entry__"):
             return self.env[i]
         if self.self_cls:
             al = self.t.ctx.aliases(self.self_cls)
@@ -2040,6 +2172,16 @@ class SpecEval:
                 return self.ev(n.args[0])
             finally:
                 self.in_old = prev
+        if name == "at_loop_entry":
+            snap = self.env.get("__loop_entry__")
+            if snap is None:
+                raise Unsupported("at_loop_entry() outside a loop invariant")
+            prev, prev_old = self.in_old, self.old
+            self.in_old, self.old = True, snap
+            try:
+                return self.ev(n.args[0])
+            finally:
+                self.in_old, self.old = prev, prev_old
         if name == "implies":
             return vbool(z3.Implies(self.b(n.args[0]), self.b(n.args[1])))
         if name == "iff":
